@@ -82,16 +82,33 @@ let () =
             | _ -> failwith "bad G op") (split_on ',' ops) in
           Printf.printf "G %s %d\n" id (if g_monitor items then 1 else 0)
       | ["Y"; id; ops] ->
-          (* the real group receive path: only authentic messages (a) reach the sender table of
-             fabric 1; forged ones (f, t, w) are refused (x) and change nothing *)
+          (* the real group receive path: only authentic messages (a, A) reach the sender table of
+             fabric 1; forged ones (f, t, w) are refused (x) and change nothing.  After an `A`
+             message the sender's ephemeral session stays (its handler is still busy): the next
+             messages of that sender also pass that session's own receive window; after an `a`
+             message every session is gone again. *)
           if not spec_mode then begin
             let st = ref gstore_new in
+            let live : (string * rx) list ref = ref [] in
             let flags = Buffer.create 16 in
             List.iter (fun op ->
               match String.split_on_char ':' op with
-              | ["a"; n; c] ->
+              | [k; n; c] when k = "a" || k = "A" || k = "b" || k = "B" ->
+                  (* b / B: addressed to the second group (258) mapped to the same key set; a session
+                     stands for one group, the sender table is per sender *)
+                  let key = n ^ "/" ^ (if k = "b" || k = "B" then "258" else "257") in
                   let (st', a) = g_post_recv !st (n_of_int 1) (n_of_string n) (n_of_string c) in
-                  st := st'; Buffer.add_char flags (if a then '1' else '0')
+                  st := st';
+                  let acc =
+                    if not a then false
+                    else begin
+                      let w = (match List.assoc_opt key !live with Some w -> w | None -> rx_unsynced) in
+                      let (w', a2) = post_recv w (n_of_string c) true false in
+                      live := (key, w') :: List.remove_assoc key !live;
+                      a2
+                    end in
+                  Buffer.add_char flags (if acc then '1' else '0');
+                  if k = "a" || k = "b" then live := []
               | [_; _; _] -> Buffer.add_char flags 'x'
               | _ -> failwith "bad Y op") (split_on ',' ops);
             let ents = List.map (fun e ->
@@ -99,8 +116,9 @@ let () =
                 (string_of_n e.g_rx.max_ctr) (string_of_n e.g_rx.bitmap) (string_of_n e.g_last))
               !st.g_entries in
             let ents = List.sort compare ents in
-            Printf.printf "Y %s %s %s %s\n" id (Buffer.contents flags)
+            Printf.printf "Y %s %s %s %s live=%s\n" id (Buffer.contents flags)
               (string_of_n !st.g_clock) (String.concat ";" ents)
+              (String.concat "," (List.sort compare (List.map fst !live)))
           end
       | ["G"; id; ops] ->
           if not spec_mode then begin
